@@ -208,6 +208,8 @@ pub fn collect_rust_types(model: &smithy::Model, ops: &Operations) -> RustTypes 
                         http_query: field.traits.http_query().map(o),
                         xml_name: field.traits.xml_name().map(o),
                         xml_flattened: field.traits.xml_flattened(),
+                        xml_attribute: field.traits.xml_attribute(),
+                        xml_namespace_prefix: field.traits.xml_namespace_prefix().map(|(p, u)| (o(p), o(u))),
                         is_custom_extension: field.traits.minio(),
                     };
                     fields.push(field);
@@ -305,6 +307,8 @@ fn patch_types(space: &mut RustTypes) {
             http_query: None,
             xml_name: Some(request.name.clone()),
             xml_flattened: false,
+            xml_attribute: false,
+            xml_namespace_prefix: None,
             is_custom_extension: false,
         });
         ty.name = o("SelectObjectContentInput");
